@@ -54,8 +54,10 @@ struct Ck {
    template<class N> void type_is(const N& n, const Type& t, const char* rule)
    {
       ++checks;
-      try { if (&n.type() != &t) fail(A_TYPE, "type", std::string("type() is not the type its kind prescribes (") + rule + ")"); }
-      catch (const std::exception& e) { fail(A_TYPE, "type", std::string("type() raised ") + e.what() + " although the kind prescribes a type (" + rule + ")"); }
+      // a type that was passed to the factory is an operand as well as the subject of the type rule
+      const int aspect = std::strcmp(rule, "given") == 0 ? (A_TYPE | A_OPERAND) : A_TYPE;
+      try { if (&n.type() != &t) fail(aspect, "type", std::string("type() is not the type its kind prescribes (") + rule + ")"); }
+      catch (const std::exception& e) { fail(aspect, "type", std::string("type() raised ") + e.what() + " although the kind prescribes a type (" + rule + ")"); }
    }
    template<class N> void type_opt(const N& n, Optional<Type> t, const char* rule = "given")
    {
